@@ -1032,6 +1032,10 @@ func c08Variants(r *Rand, p *loginPlan, forced int) {
 		if p.GapMs > 100 {
 			either()
 		}
+	case forced < 0 && r.Pct(4):
+		// a slow server: it pauses (up to two seconds) while the client writes its login messages, then reads on;
+		// the login takes that much longer, nothing else changes (the context has thirty seconds)
+		p.Knobs.GenSlow(r, 1500, 2*time.Second)
 	case forced == 5 || r.Pct(4):
 		if r.Pct(70) {
 			p.CancelAtStep = 1 + r.Intn(300)
@@ -1367,6 +1371,11 @@ func (c09) Gen(r *Rand, idx int, tier string) interface{} {
 		}
 	} else if r.Pct(40) {
 		decorate(r, p)
+	}
+	if !p.Twin && !p.ReusePlain && r.Pct(6) {
+		// a slow server: it pauses (up to two seconds) while the client writes its login messages, then reads on
+		p.Knobs.GenSlow(r, 1500, 2*time.Second)
+		p.Edit += " + slow server"
 	}
 	return p
 }
